@@ -30,7 +30,7 @@ def gen_case(seed, idx):
     w1, w2 = rs.choice(wl), rs.choice(wl)
     A = ["port", (k, w1), "pa"]
     B = ["port", (k, w2), "pb"]
-    opk = rs.weighted([(8, "arith"), (4, "arithint"), (4, "div"), (3, "divint"), (3, "bitwise"), (4, "cmp"), (2, "cmpint"), (3, "shift"), (2, "unary"), (2, "resize"), (3, "conv"), (2, "view"), (2, "concat"), (2, "index"), (2, "slice")])
+    opk = rs.weighted([(8, "arith"), (4, "arithint"), (4, "div"), (3, "divint"), (3, "bitwise"), (4, "cmp"), (2, "cmpint"), (2, "cmpnf"), (3, "shift"), (2, "unary"), (2, "resize"), (3, "conv"), (2, "view"), (2, "concat"), (2, "index"), (2, "slice")])
 
     def lit(w, kk, nz=False):
         lim = (1 << w) - 1 if kk == "U" else (1 << (w - 1)) - 1
@@ -69,6 +69,8 @@ def gen_case(seed, idx):
         c = lit(w1, k)
         op = rs.choice(["lt", "le", "gt", "ge", "eq", "ne"])
         e = ["cmp", ("bool",), op, c, A] if rs.below(2) else ["cmp", ("bool",), op, A, c]
+    elif opk == "cmpnf":
+        e = ["cmpnf", ("bool",), rs.choice(["lt", "le", "gt", "ge", "eq", "ne"]), A, rs.choice(["Null", "Full"]), rs.below(2)]
     elif opk == "shift":
         e = [rs.choice(["shl", "shr"]), (k, w1), A, ["ci", rs.range(0, w1 + 1)]]
     elif opk == "unary":
@@ -124,9 +126,9 @@ def subst(e, env):
 def fold(text):
     """evaluate with CoHDL's Python-level objects -> (kind, width, bit pattern)"""
     import cohdl
-    from cohdl import Bit, BitVector, Signed, Unsigned, op
+    from cohdl import Bit, BitVector, Full, Null, Signed, Unsigned, op
 
-    ns = {"cohdl": cohdl, "Bit": Bit, "BitVector": BitVector, "Signed": Signed, "Unsigned": Unsigned, "op": op}
+    ns = {"cohdl": cohdl, "Bit": Bit, "BitVector": BitVector, "Signed": Signed, "Unsigned": Unsigned, "op": op, "Null": Null, "Full": Full}
     x = eval(text, ns)
     if isinstance(x, bool):
         return ("bool", 1, int(x))
